@@ -710,6 +710,16 @@ theorem C09_gen_ungapped_facts : Gen.C09.ungappedFacts =
     ("ungapped.extend.init", "-1")] := by
   decide
 
+/-- `get_trace_linear` / `get_trace_affine` (tracetable.pyx): the nested tests and the maximum written in each leaf, in
+source order = the decision trees `traceLin`, `traceAffM`, `traceAffG` of the model (whose value is `max`: `C09_trace_linear_max`,
+`traceAffM_eq`, `traceAffG_eq`). -/
+theorem C09_gen_trace_trees : Gen.C09.traceFacts =
+    [("trace.get_trace_linear.tests", "match_score>gap_left_score;match_score>gap_top_score;match_score==gap_top_score;match_score==gap_left_score;match_score>gap_top_score;match_score==gap_top_score;gap_left_score>gap_top_score;gap_left_score==gap_top_score"),
+    ("trace.get_trace_linear.maxima", "max_score=match_score;max_score=match_score;max_score=gap_top_score;max_score=match_score;max_score=match_score;max_score=gap_top_score;max_score=gap_left_score;max_score=gap_left_score;max_score=gap_top_score"),
+    ("trace.get_trace_affine.tests", "match_to_match_score>gap_left_to_match_score;match_to_match_score>gap_top_to_match_score;match_to_match_score==gap_top_to_match_score;match_to_match_score==gap_left_to_match_score;match_to_match_score>gap_top_to_match_score;match_to_match_score==gap_top_to_match_score;gap_left_to_match_score>gap_top_to_match_score;gap_left_to_match_score==gap_top_to_match_score;match_to_gap_left_score>gap_left_to_gap_left_score;match_to_gap_left_score<gap_left_to_gap_left_score;match_to_gap_top_score>gap_top_to_gap_top_score;match_to_gap_top_score<gap_top_to_gap_top_score"),
+    ("trace.get_trace_affine.maxima", "max_match_score=match_to_match_score;max_match_score=match_to_match_score;max_match_score=gap_top_to_match_score;max_match_score=match_to_match_score;max_match_score=match_to_match_score;max_match_score=gap_top_to_match_score;max_match_score=gap_left_to_match_score;max_match_score=gap_left_to_match_score;max_match_score=gap_top_to_match_score;max_gap_left_score=match_to_gap_left_score;max_gap_left_score=gap_left_to_gap_left_score;max_gap_left_score=match_to_gap_left_score;max_gap_top_score=match_to_gap_top_score;max_gap_top_score=gap_top_to_gap_top_score;max_gap_top_score=gap_top_to_gap_top_score")] := by
+  rfl
+
 /-- every `if … : raise X` of the public functions IN SOURCE ORDER = the order and the exception classes of the guards in
 `bandedScore` / `bandSetup`, `gappedScore`, `ungapped` and `growShape` (`C09_*_rejects`): which error wins is part of the model. -/
 theorem C09_gen_guards :
